@@ -30,6 +30,16 @@ const enumObjects = 3 // object numbers 3, 4, 5 next to the catalog 1 and the pa
 // hidden) rotates with object number and revision, a free entry carries the
 // next generation, a redefinition after a free uses that generation.
 func buildEnumHistory(actions [][]int, kinds []serial.SectionKind) ([]serial.Revision, bool) {
+	return buildEnumHistoryVariant(actions, kinds, false)
+}
+
+// buildEnumHistoryVariant: with lowRun every update also redefines the
+// catalog 1 and the page tree root 2, lists object 0 in a subsection "0 1" of
+// its own (odd revisions) or not at all (even revisions), and frees an object
+// which no later revision defines again for good (generation 65535, next-free
+// 0).  The update tables then have a subsection which starts at object 1 and
+// contains "0000000000 65535 f" entries after its first entry.
+func buildEnumHistoryVariant(actions [][]int, kinds []serial.SectionKind, lowRun bool) ([]serial.Revision, bool) {
 	gens := map[uint32]uint16{}
 	inUse := map[uint32]bool{}
 	marker := 0
@@ -39,6 +49,11 @@ func buildEnumHistory(actions [][]int, kinds []serial.SectionKind) ([]serial.Rev
 		if ri == 0 {
 			rev.Ops[1] = serial.Op{Value: syntax.D("Type", syntax.N("Catalog"), "Pages", syntax.RefTo(2, 0), "PageLayout", syntax.N("L0"))}
 			rev.Ops[2] = serial.Op{Value: syntax.D("Type", syntax.N("Pages"), "Kids", syntax.A(), "Count", syntax.I(0))}
+		}
+		if lowRun && ri > 0 {
+			rev.Object0 = []int{2, 3}[ri%2]
+			rev.Ops[1] = serial.Op{Value: syntax.D("Type", syntax.N("Catalog"), "Pages", syntax.RefTo(2, 0), "PageLayout", syntax.N(fmt.Sprintf("L%d", ri)))}
+			rev.Ops[2] = serial.Op{Value: syntax.D("Type", syntax.N("Pages"), "Kids", syntax.A(), "Count", syntax.I(0), "Marker", syntax.I(int64(ri)))}
 		}
 		for i, act := range actions[ri] {
 			n := uint32(3 + i)
@@ -69,6 +84,15 @@ func buildEnumHistory(actions [][]int, kinds []serial.SectionKind) ([]serial.Rev
 					return nil, false
 				}
 				gens[n]++
+				if lowRun {
+					again := false
+					for rj := ri + 1; rj < len(actions); rj++ {
+						again = again || actions[rj][i] == 1
+					}
+					if !again {
+						gens[n] = 65535
+					}
+				}
 				rev.Ops[n] = serial.Op{Free: true, NextGen: gens[n]}
 				inUse[n] = false
 			}
@@ -158,8 +182,15 @@ func TestEnum(t *testing.T) {
 					continue
 				}
 				revs, _ := buildEnumHistory(actions, chain)
-				for variant := 0; variant < 2 && !failed; variant++ {
+				nvariants := 2
+				if nrev > 1 && chain[0] != serial.Stream {
+					nvariants = 3 // the low-run variant, canonical rendering
+				}
+				for variant := 0; variant < nvariants && !failed; variant++ {
 					c := Case{Version: "1.7", Revs: revs}
+					if variant == 2 {
+						c.Revs, _ = buildEnumHistoryVariant(actions, chain, true)
+					}
 					if variant == 1 {
 						c.Revs, _ = buildEnumHistory(actions, chain) // fresh copy: normalise may edit it
 						c.Seed = vt.HashBytes([]byte(fmt.Sprintf("%d/%d/%d/%d", vt.Seed(), nrev, code, ci))) | 1
@@ -191,6 +222,6 @@ func TestEnum(t *testing.T) {
 		}
 	}
 	if !failed {
-		st.SetExhaustive(fmt.Sprintf("all histories of <= %d revisions over objects 3..5 (each revision: leave/define/free per object, frees only of objects in use) x all section-kind chains {table,hybrid}^R and stream^R, each under the canonical and one random rendering", maxRev))
+		st.SetExhaustive(fmt.Sprintf("all histories of <= %d revisions over objects 3..5 (each revision: leave/define/free per object, frees only of objects in use) x all section-kind chains {table,hybrid}^R and stream^R, each under the canonical and one random rendering; table/hybrid chains of >= 2 revisions also in the low-run variant (updates redefine objects 1 and 2, final frees carry generation 65535) under the canonical rendering", maxRev))
 	}
 }
